@@ -53,13 +53,6 @@ Definition llit_agrees (m : member) (l : llit) : bool :=
   && (m_size m =? ll_size l) && (m_owner m =? ll_owner l) && (m_group m =? ll_group l)
   && (m_mtime m =? ll_mtime l) && str_eqb (m_fmode m) (dec (ll_fmode l)).
 
-Fixpoint list_forall2b {A B} (f : A -> B -> bool) (l1 : list A) (l2 : list B) : bool :=
-  match l1, l2 with
-  | [], [] => true
-  | a :: l1, b :: l2 => f a b && list_forall2b f l1 l2
-  | _, _ => false
-  end.
-
 Definition nat_result_eqb (a b : result nat) : bool := result_eqb Nat.eqb a b.
 
 Definition step_agrees (m : step_obs) (l : steplit) : bool :=
@@ -86,36 +79,14 @@ Definition agree (c : case) : bool :=
   end.
 
 (** ** holds *)
-Definition listed_ok (w : wmem) (l : llit) : bool :=
-  str_eqb (w_name w) (dec (ll_name l))
-  && (Z.of_N (w_size w) =? ll_size l) && (Z.of_N (w_owner w) =? ll_owner l)
-  && (Z.of_N (w_group w) =? ll_group l) && (Z.of_N (w_mtime w) =? ll_mtime l).
+Definition listed_ok_l (w : wmem) (l : llit) : bool :=
+  listed_ok w (dec (ll_name l)) (ll_size l) (ll_owner l) (ll_group l) (ll_mtime l).
 
-Definition lookup_ok (ws : list wmem) (n : string) (r : result nat) : bool :=
-  match last_index (dec n) ws, r with
-  | Some i, Ok j => Nat.eqb i j
-  | None, Err KeyError => true
-  | _, _ => false
-  end.
+Definition lookup_ok_l (ws : list wmem) (n : string) (r : result nat) : bool :=
+  lookup_ok ws (dec n) r.
 
-(** One reference file per member; [None] once a call outside the property's
-    alphabet was made on that member (its later results are not judged). *)
-Fixpoint steps_ok (files : list (option bio)) (ops : list (nat * op)) (steps : list steplit) : bool :=
-  match ops, steps with
-  | [], [] => true
-  | (i, o) :: ops', (r, t, _) :: steps' =>
-      match nth_error files i with
-      | None => false
-      | Some None => steps_ok files ops' steps'
-      | Some (Some b) =>
-          if op_in_dom b o then
-            let (b', sr) := bio_op b o in
-            out_eqb (as_member_out o sr) (out_of r) && (b_pos b' =? t)
-            && steps_ok (list_set files i (Some b')) ops' steps'
-          else steps_ok (list_set files i None) ops' steps'
-      end
-  | _, _ => false
-  end.
+Definition obs2_of (s : steplit) : out * Z :=
+  match s with (r, t, _) => (out_of r, t) end.
 
 Definition spec_step_eqb (a : out * Z) (b : lout * Z) : bool :=
   out_eqb (fst a) (out_of (fst b)) && (snd a =? snd b).
@@ -128,9 +99,9 @@ Definition holds (c : case) : bool :=
         match obs with
         | Err _ => false                       (* a valid archive must open *)
         | Ok (listing, looked, steps) =>
-            list_forall2b listed_ok ws listing
-            && list_forall2b (lookup_ok ws) lookups looked
-            && steps_ok (map (fun w => Some (bio_open (w_data w))) ws) ops steps
+            list_forall2b listed_ok_l ws listing
+            && list_forall2b (lookup_ok_l ws) lookups looked
+            && steps_ok (map (fun w => Some (bio_open (w_data w))) ws) ops (map obs2_of steps)
         end
       else true
   | SpecCase data ops obs =>
